@@ -1542,3 +1542,47 @@ def rule_query_fresh_state(db: ProgramDB) -> List[Instance]:
     if n < 2:
         raise AnalysisError(f"only {n} quantifier evaluation method(s) that evaluate their descriptor found (an, the)")
     return out
+
+
+# ---------------------------------------------------------------------------------- SLOT-STORE-LINKED
+def rule_slot_store_linked(db: ProgramDB) -> List[Instance]:
+    """A node is below another in two ways: in an operand / child slot (evaluation follows the slots) and in the graph (the
+    per-evaluation reset and the invalidation of result caches follow the graph).  The constructors make both; code that puts a
+    node into ANOTHER node's slot afterwards (a refinement re-linked under its parent operator, a predicate attached implicitly to
+    the query whose block is open) has to make both as well: every such store is accompanied, in the same function, by the graph
+    link - `<child>._parent_ = <owner>` or `<owner>._update_child_()` / `_update_children_(…)`.  Otherwise the stored node is
+    evaluated but never reset: a variable without a domain inside it keeps the registry of its first evaluation."""
+    out = []
+    se = db.cls("SymbolicExpression")
+    slots = {"_child_", "left", "right"}
+    n = 0
+    for fn in sorted(db.all_functions(), key=lambda f: f.qualname):
+        if fn.module not in ("rule", "predicate", "entity", "symbolic", "conclusion", "conclusion_selector"):
+            continue
+        for a in own_nodes(fn.node):
+            if not isinstance(a, ast.Assign):
+                continue
+            for t in a.targets:
+                if not (isinstance(t, ast.Attribute) and t.attr in slots) or (isinstance(t.value, ast.Name) and t.value.id == "self"):
+                    continue
+                if fn.name == "_parent_" or (fn.cls is not None and fn.name in ("__post_init__", "__init__")):
+                    continue          # the parent setter is the link itself (it fills the slot of the new parent)
+                owner, child = unparse(t.value), a.value
+                n += 1
+                linked = False
+                for x in own_nodes(fn.node):
+                    if isinstance(x, ast.Call) and call_attr(x) in ("_update_child_", "_update_children_") and unparse(x.func.value) == owner:
+                        linked = True
+                    if isinstance(x, ast.Assign) and any(isinstance(tt, ast.Attribute) and tt.attr == "_parent_" for tt in x.targets):
+                        tgt_child = unparse([tt for tt in x.targets if isinstance(tt, ast.Attribute) and tt.attr == "_parent_"][0].value)
+                        if isinstance(child, ast.Name) and tgt_child == child.id and unparse(x.value) == owner:
+                            linked = True
+                out.append(inst("SLOT-STORE-LINKED", HOLDS if linked else VIOLATION, fn, f"{fn.short}[{unparse(t)} = {unparse(child)[:30]}]",
+                                "the stored node is linked below its new owner in the graph as well" if linked else
+                                f"`{unparse(a)[:70]}` puts a node into the slot of `{owner}` without linking it below `{owner}` in the graph: it is evaluated, but the per-evaluation "
+                                f"reset and the invalidation of result caches never reach it - a variable without a domain inside it (SameN(other=let(A)) attached inside "
+                                f"`with query:`) keeps the instances of its first evaluation", line=a.lineno))
+    if n < 3:
+        raise AnalysisError(f"only {n} stores into another node's slot found")
+    return out
+
